@@ -116,23 +116,28 @@ def r2(ctx):
         """tree u reads the character vector at position `ptr`"""
         return has(u, ('index', ANY, V(ptr))) or has(u, Call('::get', ANY, V(ptr))) or any(isinstance(x, tuple) and x and x[0] == 'var' and
                                                       any(has(core(dv), ('index', ANY, V(ptr))) for _, dv in local_defs(b, x[2])) for x in walk(u))
-    for p in pushes:
-        v = sym(b, p.args[1])
+    # one row per feasible path through one iteration: the operation pushed on that path (evaluated along the path, so a value
+    # chosen by a match and pushed once at the end is resolved), the change of to_ptr and the conditions taken
+    from rules.common import iteration_table
+    rows = iteration_table(b, loop, {'to': tpl, 'from': fpl})
+    if not rows:
+        raise AnchorMissing('iteration paths of the alignment loop')
+    for row in rows:
+        ps = [(t, a) for t, a in row['calls'] if t in pushes]
+        if len(ps) != 1:
+            ctx.fail(b, 'one-push-per-iteration', 'an iteration path of the alignment loop pushes %d operations' % len(ps), b.blocks[loop.header].term.span)
+            continue
+        p, a = ps[0]
+        v = peel(a[1])
         if not (v[0] == 'agg' and v[1] == 'adt'):
             ctx.fail(b, 'push-value', 'pushed operation is not a literal variant: %s' % show_in(b, v), p.span)
             continue
         name = v[2].rsplit('::', 1)[-1]
         seen[name] = p
-        atoms = [(core(t), pol) for t, pol, g in atoms_at(b, p.bb)]
-        # to_ptr step reachable from this push within the iteration
-        steps = [(s, val) for s, val in tp if s.bb in cfg.reach(b, p.bb, removed_blocks=[loop.header])]
-        inc = None
-        if len(steps) == 1 and match(core(steps[0][1]), ('bin', 'Add', V(tpl), Pred(lambda t: t[0] == 'const'))):
-            inc = core(steps[0][1])[3][2]
-        elif not steps:
-            inc = 0
+        atoms = [(core(t), pol) for t, pol in row['atoms']]
+        inc = row['delta']['to']
         if name == 'Keep':
-            g = any(pol is True and t[0] == 'bin' and t[1] == 'Eq' for t, pol in atoms)
+            g = any(pol is True and ((t[0] == 'bin' and t[1] == 'Eq') or (t[0] == 'call' and t[1].endswith('::eq'))) for t, pol in atoms)
             want = 1
         elif name == 'Insert':
             g = any(pol is True and match(t, Call(WS, Pred(lambda u: derives(u, tpl)))) for t, pol in atoms)
@@ -177,8 +182,10 @@ def r3(ctx):
     if len(mism) != 1:
         raise AnchorMissing('the length comparison chars.len() != operations.len() of repair()')
     g = mism[0]
-    region = dominated_by_edge(b, (g.block, g.target))
-    errs = [blk for v, blk in ret_values(b) if v[0] == 'agg' and v[2].endswith('Result::Err')]
+    # what can run once the lengths differ: reachability from the mismatch edge, following the constants and Result variants set on
+    # the way (a helper that returns Err(..) which the caller propagates with `?` only continues on the residual arm)
+    region = cfg.reach_const(b, g.target)
+    errs = [blk for v, blk in ret_values(b) if (v[0] == 'agg' and v[2].endswith('Result::Err')) or (v[0] == 'call' and v[1].endswith('from_residual'))]
     ctx.require(any(e in region for e in errs), b, 'mismatch-is-err', 'a length mismatch leads to Err(..)', None, b.blocks[g.block].term.span)
     ctx.require(not any(blk in region for v, blk in ret_values(b) if v[0] == 'agg' and v[2].endswith('Result::Ok')), b, 'mismatch-not-ok',
                 'a length mismatch never returns Ok', None)
@@ -186,10 +193,13 @@ def r3(ctx):
     ctx.require(not ps, b, 'err-path-panic-free', 'the mismatch error path contains no index / unwrap / assert',
                 'the mismatch error path can panic: %s at line %d (a length mismatch must be an error, not a panic)' % (
                     ps[0][1] if ps else '', ps[0][0].span['line'] if ps else 0), ps[0][0].span if ps else None)
-    # everything that touches the characters is on the other side
-    other = dominated_by_edge(b, (g.block, [w for w in b.succ[g.block] if w != g.target][0])) if len(b.succ[g.block]) == 2 else set()
+    # everything that touches the characters runs only when the check passed
+    other = set()
+    for w in b.succ[g.block]:
+        if w != g.target:
+            other |= cfg.reach_const(b, w)
     uses = [t for t in b.calls(r'Iterator::zip$|ops::Index>::index$')]
-    ctx.require(all(t.bb in other for t in uses) and bool(uses), b, 'check-first', 'zip / indexing happen only after the length check passed', None)
+    ctx.require(all(t.bb in other and t.bb not in region for t in uses) and bool(uses), b, 'check-first', 'zip / indexing happen only after the length check passed', None)
     # pushes
     lit = [t for t in b.calls(r'String::push$')]
     cp = [t for t in b.calls(r'String::push_str$')]
@@ -315,3 +325,27 @@ def r6(ctx):
 def r_charstring(ctx):
     from rules import c11
     c11.charstring_primitive(ctx)
+
+
+@rule('C10', 'R-C10-8', 'T10 PROVENANCE (the characters aligned are those of the arguments)',
+      'operations(from, to) segments `from` and `to` themselves and repair(s, ops) segments `s` itself: CharString::new receives the '
+      'parameter, not a normalised / trimmed / re-cased copy. One operation per character of the ORIGINAL `from` is what repair '
+      'applies them to; a copy with a different number of characters (NFC of a decomposed text) breaks the pairing')
+def r8(ctx):
+    n = 0
+    for fn, params in (('whitespace::operations', {1: 'from', 2: 'to'}), ('whitespace::repair', {1: 's'})):
+        b = ctx.body(fn)
+        seen = set()
+        for t in b.calls(r'CharString::new$'):
+            v = core(sym(b, t.args[0]))
+            n += 1
+            ok = v[0] == 'arg' and v[1] in params
+            if ok:
+                seen.add(v[1])
+            ctx.require(ok, b, 'segment-argument|' + fn.rsplit('::', 1)[-1], '%s segments its argument `%s`' % (fn, params.get(v[1], '?') if ok else '?'),
+                        '%s segments `%s` (line %d) instead of its argument: the operations no longer correspond one-to-one to the characters of the text they '
+                        'are applied to' % (fn, show_in(b, sym(b, t.args[0]))[:120], t.span['line']), t.span)
+        ctx.require(seen == set(params), b, 'segments-all|' + fn.rsplit('::', 1)[-1], '%s segments each of %s' % (fn, sorted(params.values())),
+                    '%s segments only the parameters %s of %s' % (fn, sorted(seen), sorted(params.values())))
+    if n < 3:
+        raise AnchorMissing('CharString::new calls of operations() / repair() (found %d)' % n)
